@@ -1,5 +1,153 @@
+import NessaiVerif.Model.Term
+import NessaiVerif.Gen.Term
 import NessaiVerif.Driver.Parse
-/- stub: replaced by the owner of this area -/
+/-
+Line protocol of the C20 loop models (`term <op> …`):
+
+  pstd  N m|none batches us                      FlowProposal.populate, accumulate_weights=False
+  pacc  N m|none maxS batches us                 FlowProposal.populate, accumulate_weights=True
+        batches = [[drawn,id;logq;logw,…],…]   us = [[k|n,…],…] (one list per np.random.rand call)
+  insdraw n [[id;k,…],…]                         ImportanceFlowProposal.draw   (k: 0 ok, 1 first mask, 2 second mask)
+  cbs   len b num den                            FlowModel.check_batch_size (min_fraction = num/den)
+  halve nDraw max                                batch size of draw_final_samples
+  dfin  npost|none ndraw maxits maxsamples|none [k,…] [2·ess,…]
+  nslive nlive [id;logP;logL0;evalL;pop,…]       NestedSampler.populate_live_points
+  inslive target [[id;0|1,…],…]                  ImportanceNestedSampler.populate_live_points
+  viol kwargs | viol attrs                       violations of the generated interface tables
+-/
 namespace NessaiVerif.Driver.Term
-def handle (_toks : List String) : String := "bad-op"
+open NessaiVerif NessaiVerif.Parse NessaiVerif.Term
+
+def parseEF? (s : String) : Option EF :=
+  if s == "nan" then some .nan
+  else if s == "-inf" then some .ninf
+  else if s == "inf" then some .pinf
+  else s.toInt?.map .fin
+
+def parseLU? (s : String) : Option LU :=
+  if s == "n" then some .ninf else s.toNat?.map .half
+
+def parseItem? (s : String) : Option Item :=
+  match s.splitOn ";" with
+  | [i, q, w] => do
+    let i ← i.toNat?
+    let q ← parseEF? q
+    let w ← parseEF? w
+    pure { id := i, logq := q, logw := w }
+  | _ => none
+
+def parseBatch? (s : String) : Option Batch := do
+  let parts ← listBody? s
+  match parts with
+  | [] => none
+  | d :: items =>
+    let d ← d.toNat?
+    let items ← items.mapM parseItem?
+    pure { drawn := d, items := items }
+
+def uniforms (us : List (List LU)) (call pos : Nat) : LU :=
+  ((us[call]?).getD [])[pos]?.getD (.half 0)
+
+def showIds (xs : List Nat) : String := showList toString xs
+
+def parsePK? (s : String) : Option (Nat × PK) :=
+  match s.splitOn ";" with
+  | [i, k] => do
+    let i ← i.toNat?
+    let k ← (if k == "0" then some PK.ok else if k == "1" then some PK.rej1 else if k == "2" then some PK.rej2 else none)
+    pure (i, k)
+  | _ => none
+
+def parseCand? (s : String) : Option Cand :=
+  match s.splitOn ";" with
+  | [i, p, l0, el, pop] => do
+    let i ← i.toNat?
+    let p ← parseEF? p
+    let l0 ← parseEF? l0
+    let el ← parseEF? el
+    let pop ← parseBool? pop
+    pure { id := i, logP := p, logL0 := l0, evalL := el, populated := pop }
+  | _ => none
+
+def parseFlag? (s : String) : Option (Nat × Bool) :=
+  match s.splitOn ";" with
+  | [i, f] => do
+    let i ← i.toNat?
+    let f ← parseBool? f
+    pure (i, f)
+  | _ => none
+
+def showTriples (xs : List (String × String × String)) : String :=
+  showList (fun (a, b, c) => s!"{a}|{b}|{c}") xs
+
+def showExit : FinalExit → String
+  | .ess => "ess" | .maxIts => "max_its" | .nDraw => "n_draw" | .maxSamples => "max_samples" | .fuel => "fuel"
+
+def handle (toks : List String) : String :=
+  match toks with
+  | ["pstd", n, m, bs, us] =>
+    match parseNat? n, parseOpt? parseEF? m, parseList? parseBatch? bs, parseList? (parseList? parseLU?) us with
+    | some n, some m, some bs, some us =>
+      match populateStd n m (uniforms us) bs {} with
+      | .done st => s!"done x={showIds (st.xs.take n)} nacc={st.nAcc} nprop={st.nProp} used={st.used} rand={st.calls}"
+      | .spin st => s!"spin used={st.used} rand={st.calls}"
+    | _, _, _, _ => "bad-op"
+  | ["pacc", n, m, mxs, bs, us] =>
+    match parseNat? n, parseOpt? parseEF? m, parseNat? mxs, parseList? parseBatch? bs,
+        parseList? (parseList? parseLU?) us with
+    | some n, some m, some mxs, some bs, some us =>
+      match populateAcc n m mxs (uniforms us) bs {} with
+      | .done r => s!"done x={showIds r.xs} nacc={r.nAcc} nprop={r.nProp} used={r.used} rand={r.calls} tie={showBool r.tie}"
+      | .spin r => s!"spin used={r.used} tie={showBool r.tie}"
+    | _, _, _, _, _ => "bad-op"
+  | ["insdraw", n, bs] =>
+    match parseNat? n, parseList? (parseList? parsePK?) bs with
+    | some n, some bs =>
+      match insDraw n bs with
+      | .done (xs, used) => s!"done x={showIds xs} used={used} ndraw={insNDraw n}"
+      | .spin (_, used) => s!"spin used={used} ndraw={insNDraw n}"
+    | _, _ => "bad-op"
+  | ["cbs", len, b, num, den] =>
+    match parseNat? len, parseInt? b, parseNat? num, parseNat? den with
+    | some len, some b, some num, some den =>
+      match checkBatchSize len b num den with
+      | .ok r => s!"ok {r}"
+      | .error .valueErr => "err=value"
+      | .error .runtimeErr => "err=runtime"
+      | .error .zeroDiv => "err=zerodiv"
+      | .error .fuel => "err=fuel"
+    | _, _, _, _ => "bad-op"
+  | ["halve", nd, mx] =>
+    match parseNat? nd, parseInt? mx with
+    | some nd, some mx =>
+      match halve (finalBatch0 nd) mx with
+      | none => "err=runtime"
+      | some none => "err=fuel"
+      | some (some b) => s!"ok {b}"
+    | _, _ => "bad-op"
+  | ["dfin", np, nd, mi, ms, ks, es] =>
+    match parseOpt? parseNat? np, parseNat? nd, parseInt? mi, parseOpt? parseNat? ms,
+        parseList? parseNat? ks, parseList? parseNat? es with
+    | some np, some nd, some mi, some ms, some ks, some es =>
+      let (e, st) := finalLoop { nPost := np, nDraw := nd, maxIts := mi, maxSamples := ms } (ks.zip es) {}
+      s!"exit={showExit e} it={st.it} size={st.size}"
+    | _, _, _, _, _, _ => "bad-op"
+  | ["nslive", n, cs] =>
+    match parseNat? n, parseList? parseCand? cs with
+    | some n, some cs =>
+      match nsLive n cs {} with
+      | .done st => s!"done ids={showIds st.ids} draws={st.draws}"
+      | .spin st => s!"spin draws={st.draws}"
+    | _, _ => "bad-op"
+  | ["inslive", t, bs] =>
+    match parseNat? t, parseList? (parseList? parseFlag?) bs with
+    | some t, some bs =>
+      match insLive t bs {} with
+      | .done st => s!"done ids={showIds st.ids} used={st.used}"
+      | .spin st => s!"spin n={st.n} used={st.used}"
+    | _, _ => "bad-op"
+  | ["viol", "kwargs"] => showTriples (kwViolations Gen.Term.callSites)
+  | ["viol", "attrs"] => showTriples (attrViolations Gen.Term.definedAttrs Gen.Term.attrReads)
+  | _ => "bad-op"
+
 end NessaiVerif.Driver.Term
